@@ -1,7 +1,7 @@
 #!/bin/sh
-# Build the symgo engine offline from /verif/engine.
+# Build the symgo engine offline from /verif/engine (golang.org/x/tools v0.29.0 from the module cache).
 set -e
 cd "$(dirname "$0")/engine"
 export GOFLAGS=-mod=mod GOPROXY=off GOSUMDB=off GOTOOLCHAIN=local
-mkdir -p ../bin
-go build -o ../bin/symgo ./cmd/symgo
+mkdir -p ../bin ../evidence
+go build -o ../bin/symgo .
